@@ -20,7 +20,8 @@ PROP = dict(
          "failing site (division by zero in leaf.abra at depth 3; array index out of bounds in helper.abra after a finished call) and the "
          "call site of every frame; the model's input is the FINAL instruction list (optimized assembly with each expanded immediate "
          "duplicated), and its length must equal the compiled program's instruction count; and a function frame with 16500 locals (D90: no register fusion beyond 15 bits) failing at a known line; "
-         "quick 420 programs / thorough 6000; per program 3 cases: (render) VmError text vs the expected chain rendered "
+         "quick 420 programs / thorough 6000, every second one re-laid-out so that a caller line and the callee's header-to-failing-line "
+         "region occupy the same byte offsets in their two files (aligned-offsets layout; line numbers unchanged); per program 3 cases: (render) VmError text vs the expected chain rendered "
          "by the model, (build) the three location tables of the compiled program vs SrcMap.build of the optimized assembly's "
          "annotations, (locs) pc_to_error_location(pc+1) for EVERY instruction vs SrcMap.lookup; distinct = distinct request; "
          "non-trivial = a trace of depth >= 2 or a table with >= 3 runs",
@@ -31,6 +32,8 @@ PROP = dict(
         "Rust fmt width padding `{:width$}`",
     ],
     assumptions=[
+        "the driver parses every instruction as kind `other`: the call/return part of the model (Step, Reachable, stackTrace) is tied to the VM "
+        "only through the rendered chain of programs whose frames the generator knows, not instruction by instruction",
         "D12 (character offsets used as byte offsets) is repaired in /repo (5388a80); non-ASCII filler lines are part of the main stream",
         "fewer than 2^32 instructions and lines (`as u32` casts in create_source_location_tables are not modelled)",
         "which annotation the code generator and the peephole optimizer attach to an instruction is checked by the correspondence "
